@@ -20,9 +20,10 @@ var blockedHdr = regexp.MustCompile(`^goroutine \d+ \[((?:semacquire|sync\.\w+\.
 // the verdict is structural, not temporal: goroutines inside mtail code that
 // have sat in one blocking operation (lock, channel, condition) for the last
 // >= 2 minutes while the only thing the harness was doing was waiting for
-// them are reported as a stall violation with their stacks as the witness;
-// when there are none (slow machine, still running) the run is inconclusive.
-// Either way the process ends: the stuck step cannot be unwound.
+// them are reported as a stall violation with their stacks as the witness
+// (the process then ends: the stuck step cannot be unwound); when there are
+// none (slow machine, still running) the step is given another StallLimit, up
+// to StallRounds of them, after which the run is inconclusive.
 //
 // Lock waits count wherever they are; channel/condition waits only count in
 // goroutines whose stack contains one of alsoIdle (frames that must not be
@@ -35,19 +36,46 @@ func (r *Run) Guard(what string, step func(), alsoIdle ...string) {
 		step()
 	}()
 	// The runtime stamps a blocked goroutine's wait start at the first GC that
-	// finds it waiting, so one is forced early; "N minutes" in the dump below
-	// then means: blocked in that one operation since at least that GC.
-	select {
-	case <-done:
-		return
-	case <-time.After(10 * time.Second):
-		runtime.GC()
+	// finds it waiting, so one is forced early in every round; "N minutes" in
+	// the dump then means: blocked in that one operation since at least then.
+	for round := 0; round < StallRounds; round++ {
+		select {
+		case <-done:
+			return
+		case <-time.After(10 * time.Second):
+			runtime.GC()
+		}
+		select {
+		case <-done:
+			return
+		case <-time.After(StallLimit - 10*time.Second):
+		}
+		if blocked := blockedGoroutines(r, alsoIdle); len(blocked) > 0 {
+			r.Violation("stalled", map[string]any{
+				"step":               what,
+				"waited_s":           (time.Duration(round+1) * StallLimit).Seconds(),
+				"blocked_goroutines": blocked,
+				"what":               fmt.Sprintf("%s did not complete: %d goroutine(s) in mtail code have been blocked in one lock/channel operation for >= 2 minutes", what, len(blocked)),
+			})
+			r.Finish()
+			os.Exit(1)
+		}
+		// nothing is stuck on a lock: slow (loaded machine), keep waiting
 	}
-	select {
-	case <-done:
-		return
-	case <-time.After(StallLimit - 10*time.Second):
-	}
+	r.Inconclusive(fmt.Sprintf("%s did not complete within %v but no mtail goroutine was found blocked for minutes", what, time.Duration(StallRounds)*StallLimit))
+	r.Finish()
+	os.Exit(1)
+}
+
+// StallRounds bounds how often a slow but not stuck step is given another StallLimit.
+const StallRounds = 8
+
+// blockedGoroutines dumps all goroutines (also to replay/<ID>/stall-goroutines.txt)
+// and returns those with mtail frames that have been in one blocking operation
+// for minutes: waits for a sync.Mutex / sync.RWMutex wherever they are, and
+// channel / condition waits in goroutines whose stack contains one of alsoIdle.
+// WaitGroup waits and idle service loops are legitimate and never count.
+func blockedGoroutines(r *Run, alsoIdle []string) []string {
 	buf := make([]byte, 64<<20)
 	buf = buf[:runtime.Stack(buf, true)]
 	_ = os.MkdirAll(r.replayDir(), 0o755)
@@ -58,10 +86,16 @@ func (r *Run) Guard(what string, step func(), alsoIdle ...string) {
 		if m == nil || !strings.Contains(g, "github.com/google/mtail/internal/") {
 			continue
 		}
-		if lock := strings.HasPrefix(m[1], "semacquire") || strings.HasSuffix(m[1], "Lock"); !lock {
+		lock := strings.Contains(g, "sync.(*RWMutex).") || strings.Contains(g, "sync.(*Mutex).Lock")
+		if strings.Contains(g, "sync.(*WaitGroup).Wait") {
+			lock = false
+		}
+		if !lock {
 			hit := false
-			for _, a := range alsoIdle {
-				hit = hit || strings.Contains(g, a)
+			if !strings.Contains(g, "sync.(*WaitGroup).Wait") {
+				for _, a := range alsoIdle {
+					hit = hit || strings.Contains(g, a)
+				}
 			}
 			if !hit {
 				continue
@@ -72,19 +106,8 @@ func (r *Run) Guard(what string, step func(), alsoIdle ...string) {
 		}
 		blocked = append(blocked, g)
 	}
-	if len(blocked) > 0 {
-		if len(blocked) > 12 {
-			blocked = blocked[:12]
-		}
-		r.Violation("stalled", map[string]any{
-			"step":               what,
-			"waited_s":           StallLimit.Seconds(),
-			"blocked_goroutines": blocked,
-			"what":               fmt.Sprintf("%s did not complete: %d goroutine(s) in mtail code have been blocked in one lock/channel operation for >= 2 minutes", what, len(blocked)),
-		})
-	} else {
-		r.Inconclusive(fmt.Sprintf("%s did not complete within %v but no mtail goroutine was found blocked for minutes", what, StallLimit))
+	if len(blocked) > 12 {
+		blocked = blocked[:12]
 	}
-	r.Finish()
-	os.Exit(1)
+	return blocked
 }
